@@ -296,6 +296,47 @@ def _leaf_concrete_names():
 _leaf_concrete_names()
 
 
+def _capture_leaf_typing():
+    """capture names as leaves of an operand list (MNEMONIC context) and of a $deref field (DEREF context), first and later
+    occurrence: an operand-level capture closes its field with ',', the same capture inside a $deref field does not (the field is
+    followed by + * ] there) -- the REAL builders on a real capture table, no stub"""
+    names = ["&x", "&genreg", "&genreg.64", "&indreg.32", "&stackreg.16", "&basereg.8L", "&genreg-1.8H"]
+    for cname in ("MNEMONIC", "DEREF"):
+        sid = f"typing:capture-leaf:{cname}"
+
+        def run(cname=cname, sid=sid):
+            ensure()
+            obs: List[Ob] = []
+            for nm in names:
+                for later in (False, True):
+                    if later and nm.startswith(("&genreg", "&indreg", "&stackreg", "&basereg")) and "." not in nm:
+                        continue          # a later occurrence without width suffix is rejected (scope decision, 12.3)
+                    try:
+                        sc = J.sc.SharedContext(capture_manager=J.cm.CapturesManager())
+                        b = getattr(J.ast_builder, BUILDER_OF_CTX[cname])()
+                        if later:
+                            b.build(untyped(nm, None, cid="first", sc=sc), CTX[cname]())
+                        r = b.build(untyped(nm, None, cid="root", sc=sc), CTX[cname]())
+                        rx_ = r.get_regex()
+                        closes = rx_.endswith(",")
+                        ok = closes == (cname == "MNEMONIC") and ("(" in rx_) == (not later) and (("\\1" in rx_) == later)
+                        got = f"{type(r).__name__} {rx_!r}"
+                    except Exception as e:     # noqa
+                        ok, got = False, repr(e)
+                    obs.append(simple_ob(f"NodeBuilder.build:{sid}:{nm}:later={int(later)}:POST", NB, "POST",
+                                         f"capture {nm!r} ({'later' if later else 'first'} occurrence) in context {cname}: "
+                                         + ("closes its operand field with ','" if cname == "MNEMONIC" else "does not emit a field separator inside the bracket")
+                                         + (", a back-reference to group 1" if later else ", exactly one capturing group"),
+                                         ok, ["C05", "C06", "C03"], detail=got, witness=f"{nm} -> {got[:100]}"))
+            return obs
+        scenario(sid, NB, ["C05", "C06", "C03"], inlined=["SpecialRegisterCaptureGroupHandler.handle", "OperandCaptureGroupHandler", "DerefOperandCaptureGroupHandler",
+                                                        "capture group builders", "*Reference / *Call .get_regex"],
+                 doc="capture names as operand / $deref-field leaves: field separator only at operand level")(run)
+
+
+_capture_leaf_typing()
+
+
 # --------------------------------------------------------------------------- $deref typing
 def _deref_typing():
     EMIT = ["main_reg", "register_multiplier", "constant_multiplier", "constant_offset"]      # [a+b*c+k]
